@@ -332,6 +332,8 @@ impl Model {
                 match (how, r) {
                     (_, Some(id)) => ex.out.vals.push(Val::Id(id)),
                     (GetHow::Get | GetHow::GetMut | GetHow::TGet | GetHow::TGetMut, None) => ex.out.vals.push(Val::None),
+                    // never issued out of range (the rig reports `unsupported`, the driver resyncs)
+                    (GetHow::GetUnchecked | GetHow::GetUncheckedMut | GetHow::TGetUnchecked | GetHow::TGetUncheckedMut, None) => {}
                     (_, None) => ex.out.panicked = true,
                 }
             }
